@@ -40,6 +40,9 @@ CLAIMS = {
     "C11": ("every law class (Isotropic, TransverselyIsotropic, Orthotropic, Anisotropic) with seeded admissible moduli, default / orthonormal / unnormalised axes, homogeneous / per-element / per-Gauss-point parameters, 3D / plane stress / plane strain is compared with an independent tensor-algebra model (textbook compliance, full 4th-order rotation, plane reductions, Voigt<->Kelvin-Mandel scaling): SPD, C.S = I, reduction of the 3D law, notation and axis-length independence; Get_Pmat / Apply_Pmat against an independently built change-of-basis matrix; parameter-write sequences against fresh objects; Walpole decompositions",
             "relative tolerance 1e-10; constructor rejections by the law's own admissibility assertions are counted, not failed",
             "reference-model oracle (independent tensor algebra) at the C / S / Get_Pmat read boundary + fresh-twin comparison after writes"),
+    "C12": ("every arithmetic operator, @, dot, ddot, .T, reducers (positive / negative / tuple axes, method and numpy-function form), Det / Inv / Trace / Transpose / TensorProd / Norm, einsum / where / linalg.solve / det / inv / eigh, ufunc out= / where= forms, reshape / integrate, FeArray.broadcast and Field objects on either side, for operands field / constant in every order and tensor ranks 0-4 on 14 shape classes (Ne == nPg == dim collisions, size-1 axes, controls), plus random expression trees of depth <= 4, is compared with an explicit double loop over (e, p) of plain numpy on plain slices; the result type is compared with the (Ne, nPg)-axes rule",
+            "elementwise arithmetic between operands of equal rank or with a rank-0 operand; square tensor axes d in {1,2,3,4}",
+            "reference-model oracle (explicit per-(e,p) loop) on executed FeArray expressions"),
 }
 
 
